@@ -5,6 +5,8 @@ CONSTANTS
   ArgSets <- ArgSetsSim
   HdrPorts <- Ports16
   HdrChans <- Chans4
+  Links <- LinksBoth
+  Cap = 1
   Chained = FALSE
   Bug = "none"
 INVARIANT EmissionsOK
